@@ -69,7 +69,22 @@ def regenerate():
 
 
 def new_value(name, cur, k):
-    """k-th alternative value for an attribute whose current value is `cur`."""
+    """k-th alternative value for an attribute whose current value is `cur`; k == "near": a value that differs from the
+    current one by one unit in the last place (an assignment is an assignment, however small the change)."""
+    if k == "near":
+        up = lambda a: np.nextafter(a, np.inf)  # noqa: E731  the smallest possible change of a float
+        if isinstance(cur, (float, np.floating)) and np.isfinite(cur) and name not in ("dip", "rotation"):
+            return float(up(np.float64(cur)))
+        if isinstance(cur, np.ndarray) and cur.dtype.names and all(cur.dtype[n].kind == "f" for n in cur.dtype.names):
+            if name in ("origin", "collar"):
+                return [float(up(np.float64(cur[n]))) for n in cur.dtype.names]
+            new = cur.copy()
+            for n in cur.dtype.names:
+                new[n] = up(new[n])
+            return new
+        if isinstance(cur, np.ndarray) and cur.dtype.kind == "f" and cur.size:
+            return up(cur)
+        return None
     if name == "units":
         return ["m", "ppm"][k % 2]
     if name == "association":
@@ -208,7 +223,7 @@ def sweep(ctx: Ctx):
                 ent = entity_factories(ws)[label]()
                 obj = ent if target == "entity" else ent.entity_type
                 attrs = assignable(obj)
-            for attr, k in itertools.product(attrs, range(nvals)):
+            for attr, k in itertools.product(attrs, list(range(nvals)) + ["near"]):
                 case = {"cls": label if target == "entity" else label + ".entity_type", "attr": attr, "k": k}
                 os.remove(path)
                 try:
@@ -219,7 +234,8 @@ def sweep(ctx: Ctx):
                         cur = getattr(obj, attr)
                         val = new_value(attr, cur, k)
                         if val is None:
-                            skipped.add(f"{case['cls']}.{attr}")
+                            if k != "near":
+                                skipped.add(f"{case['cls']}.{attr}")
                             continue
                         try:
                             setattr(obj, attr, val)
